@@ -309,7 +309,16 @@ pub fn g_state(ch: &mut Choices) -> (validator::ReplicaState, bool) {
         q
     });
     let np = ch.below(4);
-    let proposals: Vec<_> = (0..np).map(|_| validator::Proposal { number: validator::BlockNumber(u64x(ch)), payload: g_payload(ch) }).collect();
+    // the replica caches several payloads per block number (a view timed out, the next leader proposed another block):
+    // neighbouring entries often share their number
+    let mut proposals: Vec<validator::Proposal> = vec![];
+    for _ in 0..np {
+        let number = match proposals.last() {
+            Some(p) if ch.chance(1, 3) => p.number,
+            _ => validator::BlockNumber(u64x(ch)),
+        };
+        proposals.push(validator::Proposal { number, payload: g_payload(ch) });
+    }
     (
         validator::ReplicaState::V2(v2::ChonkyV2State {
             epoch: validator::EpochNumber(u64x(ch)),
